@@ -227,8 +227,41 @@ class TerminalSitesScan(FiniteTask):
                         if isinstance(n, ast.Call) and ast.unparse(n.func).endswith("trigger") and len(n.args) >= 2 \
                                 and ast.unparse(n.args[1]).split(".")[-1] in ("EVT_RELEASED", "EVT_ABORTED", "EVT_REJECTED"):
                             sites.add((fn, f.name))
-        emit("C27/frame/terminal-outcomes-are-notified-only-by-the-functions-under-a-terminal-event-contract", sites == self.KNOWN,
-             detail=str(sorted(sites ^ self.KNOWN)))
+        # a trigger site inside a helper that is called only from functions of the known set (directly or through further such
+        # helpers) is executed - inlined - by those functions' contracts: it is attributed to its callers, not reported (P_4)
+        callers = {}
+        for dp, dn, fns in os.walk(os.path.join(REPO_ROOT, "pynetdicom")):
+            if "tests" in dp.split(os.sep) or "benchmarks" in dp.split(os.sep) or "apps" in dp.split(os.sep):
+                continue
+            for fn in fns:
+                if not fn.endswith(".py"):
+                    continue
+                tree = ast.parse(open(os.path.join(dp, fn), encoding="utf-8").read())
+                for f in ast.walk(tree):
+                    if isinstance(f, ast.FunctionDef):
+                        for n in ast.walk(f):
+                            if isinstance(n, ast.Call):
+                                nm = n.func.attr if isinstance(n.func, ast.Attribute) else (n.func.id if isinstance(n.func, ast.Name) else None)
+                                if nm:
+                                    callers.setdefault(nm, set()).add((fn, f.name))
+        resolved = set()
+        for site in sites:
+            seen, todo, ok = set(), [site], True
+            while todo and ok:
+                cur = todo.pop()
+                if cur in self.KNOWN or cur in seen:
+                    continue
+                seen.add(cur)
+                cs = {c for c in callers.get(cur[1], set()) if c != cur}
+                if not cs or not cur[1].startswith("_"):
+                    ok = False
+                todo += list(cs)
+            if ok:
+                resolved.add(site)
+        unknown = sites - self.KNOWN - resolved
+        missing = self.KNOWN - sites - {k for k in self.KNOWN if any(k in (callers.get(r[1], set())) for r in resolved)}
+        emit("C27/frame/terminal-outcomes-are-notified-only-by-the-functions-under-a-terminal-event-contract", not unknown and not missing,
+             detail=str(sorted(unknown | missing)))
 
 
 def tasks(tier):
